@@ -112,7 +112,28 @@ func dumpAll(blocks []*cm.RootBlock, refs cm.ReferenceMap) string {
 // lower-casing scratch buffer
 const upperHTML = "<DIV>\n<SCRIPT>x</SCRIPT> <Style> <B>\n</DIV>\n\n"
 
+// rarePaths exercises code paths that typical inputs do not reach and where a
+// hoisted scratch buffer or cache would sit: long destinations that need
+// percent-encoding (each different, so that a shared buffer shows as a wrong
+// result too), non-ASCII and long labels, long titles with references, info
+// strings with escapes, autolinks that need encoding, long delimiter runs.
+func rarePaths(n int) string {
+	var sb strings.Builder
+	for i := 0; i < n; i++ {
+		tag := fmt.Sprintf("%c", 'a'+i%26)
+		long := strings.Repeat("é"+tag+" ", 30)
+		fmt.Fprintf(&sb, "[l%d](</p/%s?q=%d> \"t %s &amp; &#x22;\") ![i%d](</img/%s%d>) <http://e.x/%s%d>\n\n", i, long, i, long, i, long, i, strings.ReplaceAll(long, " ", "%"), i)
+		fmt.Fprintf(&sb, "[Straße %s ΣΑΣ %d]: </d/%s>\n\n[straße %s σας %d] [STRASSE %s ΣΑΣ %d][]\n\n", tag, i, long, tag, i, tag, i)
+		fmt.Fprintf(&sb, "``` la\\*ng&amp;%d %s\ncode\n```\n\n%s a %s\n\n", i, long, strings.Repeat("*", 40+i), strings.Repeat("_", 40+i))
+	}
+	return sb.String()
+}
+
 func runBatch(inputs [][]byte, goroutines int) error {
+	// distinct rare-path documents are parsed concurrently too
+	for i := 0; i < 3; i++ {
+		inputs = append(inputs[:len(inputs):len(inputs)], []byte(rarePaths(i+1)))
+	}
 	// (a) distinct inputs parsed concurrently
 	wantParse := make([]string, len(inputs))
 	for i, in := range inputs {
@@ -151,6 +172,7 @@ func runBatch(inputs [][]byte, goroutines int) error {
 	// (b) one shared tree rendered, formatted and walked concurrently
 	var doc []byte
 	doc = append(doc, upperHTML...)
+	doc = append(doc, rarePaths(2+len(inputs)%3)...)
 	for _, in := range inputs {
 		doc = append(doc, in...)
 		doc = append(doc, "\n\n"...)
@@ -274,6 +296,6 @@ const rule = "batch of 4-16 G1/G2/G3 inputs x 8-64 goroutines behind a start bar
 
 func TestProperty(t *testing.T) {
 	harness.Run(t, harness.Plan{Prop: "C19", Checks: []harness.Check{
-		{Name: "race", Quick: 500, Thorough: 2500, Gen: genBatch, Prop: prop, Rule: rule},
+		{Name: "race", Quick: 150, Thorough: 1200, Gen: genBatch, Prop: prop, Rule: rule},
 	}})
 }
